@@ -4,6 +4,17 @@ import json
 
 def replay(w):
     kind = w["kind"]
+    if kind == "pysrc":
+        # a self-contained script over the real library that leaves FAILED = True/False (raising counts as failing)
+        from common import use_repo
+
+        use_repo()
+        ns = {"__name__": "verif_witness"}
+        try:
+            exec(compile(w["src"], "<witness>", "exec"), ns)
+        except BaseException:  # noqa
+            return True
+        return bool(ns.get("FAILED", True))
     if kind == "build-injected":
         import check_build
 
